@@ -279,8 +279,15 @@ def _noise(case, P):
     if kind == 'eye':
         return np.eye(P)
     rs = np.random.RandomState(case['seed'] + 7919)
+    if kind == 'intspd':                    # sweep: integer-valued SPD matrix (exact in float32 and integer dtypes)
+        A = rs.randint(-2, 3, size=(P, P)).astype(float)
+        return A @ A.T + P * np.eye(P)
     A = rs.randn(P, P)
-    return A @ A.T / P + np.eye(P)
+    N = A @ A.T / P + np.eye(P)
+    ns = case.get('noise_scale')            # sweep: precision in the units of the data ('inverse': 1 / scale^2)
+    if ns is not None:
+        N = N * (float(case['scale']) ** -2 if ns == 'inverse' else float(ns))
+    return N
 
 
 _last = {'key': None, 'val': None}
@@ -305,10 +312,16 @@ def _make_(case):
         rs = np.random.RandomState(case['seed'] + 104729 * attempt)
         if case.get('values') == 'int':
             X = rs.randint(0, 41, size=(m, P)).astype(float)
+        elif case.get('values') == 'int-large':                    # sweep: needs >= 15 bits; exact in float32 / (u)int16
+            X = rs.randint(0, case.get('vmax', 30000), size=(m, P)).astype(float)
         else:
             X = 0.3 + rs.rand(m, P) + 2.0 * rs.rand(n, P)[cond]
             if _KIND[method] != 'poisson':
                 X = X - 1.6                                        # mixed signs (centring errors become visible)
+            if case.get('values') == 'f32':                        # sweep: non-integer values representable in float32
+                X = X.astype(np.float32).astype(np.float64)
+        if case.get('scale'):                                      # sweep: the same design in other (legitimate) units
+            X = X * float(case['scale'])
         if nan != 'none':
             X[_nan_mask(rs, nan, m, P, cond, thin=attempt // 15)] = np.nan
         if _KIND[method] != 'corr' or _corr_defined(X):
@@ -334,12 +347,92 @@ def _array(X, dtype='float64', order='C'):
     return arr
 
 
-def _dataset(X, labels, folds, dtype='float64', order='C'):
+def _form(values, form):
+    """descriptor values in the container / dtype named by `form` (None: ndarray of the natural dtype, as before the sweeps)"""
+    if form is None or form == 'array':
+        return np.array(values)
+    if form == 'list':
+        return list(values)
+    if form == 'tuple':
+        return tuple(values)
+    if form == 'object':
+        return np.array(list(values), dtype=object)
+    return np.array(values, dtype=form)             # 'int8', 'uint8', 'float32', 'bool', ...
+
+
+EXTRAS = ('vec2d', 'vec2d-float', 'str-list', 'vary', 'vary2d')
+
+
+def _extra_values(name, cond, m):
+    """further observation descriptors (python lists; 2-D ones as lists of lists).  'vec2d', 'vec2d-float', 'str-list' are
+    functions of the condition, 'vary' / 'vary2d' differ between the observations of one condition"""
+    if name == 'vec2d':
+        return [[10 * cond[i] + 1, 10 * cond[i] + 2] for i in range(m)]
+    if name == 'vec2d-float':
+        return [[cond[i] + 0.5, -1.0 * cond[i], 0.25] for i in range(m)]
+    if name == 'str-list':
+        return ['g%d' % ((3 * cond[i] + 1) % 4) for i in range(m)]
+    if name == 'vary':
+        return [100 + i for i in range(m)]
+    if name == 'vary2d':
+        return [[i, cond[i]] for i in range(m)]
+    raise ValueError(name)
+
+
+def _dataset(X, labels, folds, dtype='float64', order='C', cond_form=None, fold_form=None, extras=None, desc_order=None):
     from rsatoolbox.data import Dataset
-    od = {'cond': np.array(labels)}
+    od = {'cond': _form(labels, cond_form)}
     if folds is not None:
-        od['fold'] = np.array(folds)
+        od['fold'] = _form(folds, fold_form)
+    if extras:
+        _, cond = _first_appearance(list(labels))
+        for name in extras:
+            vals = _extra_values(name, cond, len(cond))
+            od[name] = vals if name == 'str-list' else np.array(vals)
+    if desc_order == 'reversed':                    # the condition descriptor is the LAST key of the dict
+        od = {k: od[k] for k in reversed(list(od))}
     return Dataset(_array(X, dtype, order), obs_descriptors=od)
+
+
+def _ds_kwargs(case):
+    return dict(cond_form=case.get('cond_form'), fold_form=case.get('fold_form'), extras=case.get('extras'),
+                desc_order=case.get('desc_order'))
+
+
+def _check_extras(got, case, labels, eff_cond, n):
+    """a further descriptor that the result carries per condition and that is constant within every condition must hold, at
+    position k, the value belonging to condition k (nothing is demanded about descriptors that are dropped)"""
+    if not case.get('extras'):
+        return None
+    _, cond = _first_appearance(list(labels))
+    m = len(cond)
+    rows = [[i for i in range(m) if eff_cond[i] == k] for k in range(n)]
+    for name in case['extras']:
+        if name not in got.pattern_descriptors:
+            continue
+        vals = _extra_values(name, cond, m)
+        if any(vals[i] != vals[r[0]] for r in rows for i in r):
+            continue
+        want = [vals[r[0]] for r in rows]
+        have = got.pattern_descriptors[name]
+        if len(have) != n or any(not np.array_equal(np.asarray(h), np.asarray(w)) for h, w in zip(have, want)):
+            return (f'pattern descriptor {name!r} = {np.asarray(have).tolist()}, but the values belonging to the conditions (in '
+                    f'order of first appearance) are {want}')
+    return None
+
+
+def _rel(got, want):
+    """both divided by the largest finite |expected| value: for cases in extreme units (`close` is absolute below 1)"""
+    w = np.asarray(want, dtype=float)
+    f = np.abs(w[np.isfinite(w)])
+    sc = float(f.max()) if f.size and f.max() > 0 else 1.0
+    return np.asarray(got, dtype=float) / sc, w / sc
+
+
+def _close_case(case, got, want, tol=TOL):
+    if case.get('scale') or case.get('noise_scale'):
+        got, want = _rel(got, want)
+    return close(got, want, tol)
 
 
 def _unbalanced(ds, case, noise, descriptor='cond', has_folds=None):
@@ -496,11 +589,11 @@ def orc_pairs(case):
     d = _make(case)
     X, n, m = d['X'], d['n'], d['m']
     if case.get('descriptor_none'):
-        ds = _dataset(X, d['labels'], d['folds'])
+        ds = _dataset(X, d['labels'], d['folds'], **_ds_kwargs(case))
         got = _unbalanced(ds, case, d['noise'], descriptor=None)
         uniq, cond, n, key = list(range(m)), list(range(m)), m, 'index'
     else:
-        ds = _dataset(X, d['labels'], d['folds'])
+        ds = _dataset(X, d['labels'], d['folds'], **_ds_kwargs(case))
         got = _unbalanced(ds, case, d['noise'])
         uniq, cond, key = d['uniq'], d['cond'], 'cond'
     if got.n_cond != n:
@@ -512,10 +605,10 @@ def orc_pairs(case):
                 f'order of first appearance {uniq}')
     folds = _effective_folds(case['method'], d['folds'], m)
     want = _spec_rdm(X, cond, n, folds, case['method'], d['noise'], case.get('weighting', 'number'), d['pl'], d['pw'])
-    if not close(got.dissimilarities[0], want, TOL):
+    if not _close_case(case, got.dissimilarities[0], want):
         return (f"{case['method']}/{case.get('weighting', 'number')}: dissimilarities {_fmt(got.dissimilarities[0])} differ from "
                 f'the average over admissible observation pairs {_fmt(want)} (conditions {uniq})')
-    return None
+    return _check_extras(got, case, d['labels'], cond, n)
 
 
 @oracle('C15/agree-calc_rdm')
@@ -523,7 +616,7 @@ def orc_agree(case):
     """calc_rdm_unbalanced coincides with calc_rdm where theory says so (matched by condition LABEL)"""
     from rsatoolbox.rdm import calc_rdm
     d = _make(case)
-    ds = _dataset(d['X'], d['labels'], d['folds'], case.get('dtype', 'float64'), case.get('order', 'C'))
+    ds = _dataset(d['X'], d['labels'], d['folds'], case.get('dtype', 'float64'), case.get('order', 'C'), **_ds_kwargs(case))
     desc = None if case.get('descriptor_none') else 'cond'
     unb = _unbalanced(ds, case, d['noise'], descriptor=desc)
     ds2 = _dataset(d['X'], d['labels'], d['folds'])
@@ -543,7 +636,7 @@ def orc_agree(case):
         ia, ib = lb.index(lu[a]), lb.index(lu[b])
         a_u.append(v)
         a_b.append(sb[(min(ia, ib), max(ia, ib))])
-    if not close(a_u, a_b, TOL):
+    if not _close_case(case, a_u, a_b):
         pairs = [(lu[a], lu[b]) for (a, b) in su]
         return (f"{case['method']}/{case.get('weighting', 'number')}/{case['kind']}: unbalanced {_fmt(a_u)} != calc_rdm "
                 f'{_fmt(a_b)} for the condition pairs {pairs[:6]}...')
@@ -559,11 +652,14 @@ def orc_folds(case):
                      d['pl'], d['pw'])
     for name, values in case['label_sets'].items():
         folds = [values[c] for c in code]
-        ds = _dataset(d['X'], d['labels'], folds)
+        form = case.get('label_forms', {}).get(name)             # sweep: container / dtype of the fold descriptor
+        ds = _dataset(d['X'], d['labels'], folds, fold_form=form)
+        if len(_first_appearance(list(np.asarray(ds.obs_descriptors['fold']).tolist()))[0]) != len(set(code)):
+            raise RuntimeError(f'fold labels {name} as {form}: the distinct values are not preserved by the container')
         got = _unbalanced(ds, case, d['noise'], has_folds=True).dissimilarities[0]
         if not close(got, want, TOL):
-            return (f"{case['method']}: fold labels {name} {values}: {_fmt(got)} differs from the average over pairs with "
-                    f'different fold values {_fmt(want)}')
+            return (f"{case['method']}: fold labels {name} {values}{' as ' + form if form else ''}: {_fmt(got)} differs from the "
+                    f'average over pairs with different fold values {_fmt(want)}')
     return None
 
 
@@ -624,6 +720,12 @@ def orc_layout(case):
         noise = d['noise']
         if noise is not None and order == 'F':
             noise = np.asfortranarray(noise)
+        if noise is not None and case.get('noise_layout') == 'strided' and order != 'F':
+            noise = _array(noise, 'float64', 'strided')
+        if noise is not None and case.get('noise_dtype'):           # integer-valued precision in another dtype
+            noise = np.array(noise, dtype=case['noise_dtype'])
+            if not np.array_equal(noise.astype(float), d['noise']):
+                raise RuntimeError('noise variant does not hold the same values')
         got = _unbalanced(ds, case, noise).dissimilarities[0]
         if ref is None:
             ref = got
@@ -695,6 +797,12 @@ def orc_list(case):
         noise = noises[0] if nmode == 'one' else noises[k]
         singles.append(_unbalanced(ds, case, noise).dissimilarities[0])
     noise_arg = noises[0] if (nmode == 'one' or noises[0] is None) else list(noises)
+    if isinstance(noise_arg, list) and case.get('noise_container') == 'tuple':      # sweep: containers of the list call
+        noise_arg = tuple(noise_arg)
+    elif isinstance(noise_arg, list) and case.get('noise_container') == 'array3d':
+        noise_arg = np.array(noise_arg)
+    if case.get('ds_container') == 'tuple':
+        dss = tuple(dss)
     with warnings.catch_warnings():
         warnings.simplefilter('ignore')
         got = calc_rdm_unbalanced(dss, method=case['method'], descriptor='cond', noise=noise_arg,
@@ -707,6 +815,159 @@ def orc_list(case):
         if not close(got.dissimilarities[k], singles[k], 1e-12):
             return (f"{case['method']}/{case.get('weighting', 'number')}: RDM {k} of the list call {_fmt(got.dissimilarities[k])} "
                     f'differs from the call on dataset {k} alone {_fmt(singles[k])}')
+    return None
+
+
+# ----------------------------------------------------------------------------------------------------------------------
+# sweeps: call sequences and environment
+# ----------------------------------------------------------------------------------------------------------------------
+def _snapshot(ds, noise):
+    import copy
+    return dict(meas=np.array(ds.measurements, copy=True), dtype=ds.measurements.dtype,
+                desc=[(k, type(v), copy.deepcopy(v)) for k, v in ds.obs_descriptors.items()],
+                noise=None if noise is None else np.array(noise, copy=True))
+
+
+def _changed(snap, ds, noise, strict_keys):
+    """None, or what differs between the inputs now and their snapshot taken before the calls"""
+    if ds.measurements.dtype != snap['dtype'] or not np.array_equal(ds.measurements, snap['meas'], equal_nan=True):
+        return 'the measurements of the dataset passed in were changed'
+    for k, tp, v in snap['desc']:
+        if k not in ds.obs_descriptors:
+            return f'obs descriptor {k!r} of the dataset passed in was removed'
+        now = ds.obs_descriptors[k]
+        if type(now) is not tp:
+            return f'obs descriptor {k!r} of the dataset passed in changed its type from {tp.__name__} to {type(now).__name__}'
+        a, b = np.asarray(now), np.asarray(v)
+        if a.dtype != b.dtype or a.shape != b.shape or not all(x == y for x, y in zip(a.ravel().tolist(), b.ravel().tolist())):
+            return f'obs descriptor {k!r} of the dataset passed in was changed: {a.tolist()} (before the call: {b.tolist()})'
+    old = [k for k, _, _ in snap['desc']]
+    if [k for k in ds.obs_descriptors if k in old] != old:
+        return f'the order of the obs descriptors of the dataset passed in changed: {list(ds.obs_descriptors)}'
+    if strict_keys and list(ds.obs_descriptors) != old:
+        return (f'the dataset passed in has obs descriptors {list(ds.obs_descriptors)} after the call, {old} before: the call '
+                'added a descriptor to the caller\'s dataset')
+    if noise is not None and not np.array_equal(noise, snap['noise']):
+        return 'the noise matrix passed in was changed'
+    return None
+
+
+@oracle('C15/call-sequence')
+def orc_calls(case):
+    """call(A), call(B) (same shape and options, other content), call(A) again: every result = definition, the two results for A
+    are identical, the result object of the first call is unchanged afterwards, and the inputs are unchanged (measurements,
+    descriptors incl. their container types, noise); the same for the single-pair helper and for the list call"""
+    from rsatoolbox.data import Dataset
+    from rsatoolbox.rdm import calc_rdm_unbalanced
+    from rsatoolbox.rdm.calc_unbalanced import calc_one_similarity
+    dA = _make(case)
+    dB = _make(dict(case, seed=case['seed'] + 1000, labels=case.get('labels_b', case['labels'])))
+    if dB['m'] != dA['m'] or dB['P'] != dA['P']:
+        raise RuntimeError('the two inputs of a call-sequence case must have the same shape')
+    kw = _ds_kwargs(case)
+    dtype, order = case.get('dtype', 'float64'), case.get('order', 'C')
+    dsA = _dataset(dA['X'], dA['labels'], dA['folds'], dtype, order, **kw)
+    dsB = _dataset(dB['X'], dB['labels'], dB['folds'], dtype, order, **kw)
+    nA = None if dA['noise'] is None else np.array(dA['noise'], copy=True)
+    nB = None if dB['noise'] is None else np.array(dB['noise'], copy=True)
+    snapA, snapB = _snapshot(dsA, nA), _snapshot(dsB, nB)
+    strict = bool(case.get('strict_keys'))
+    weighting = case.get('weighting', 'number')
+    wants = []
+    for d in (dA, dB):
+        folds = _effective_folds(case['method'], d['folds'], d['m'])
+        wants.append(_spec_rdm(d['X'], d['cond'], d['n'], folds, case['method'], d['noise'], weighting, d['pl'], d['pw']))
+    r1 = _unbalanced(dsA, case, nA)
+    first = np.array(r1.dissimilarities, copy=True)
+    first_labels = list(r1.pattern_descriptors['cond'])
+    if not close(first[0], wants[0], TOL):
+        return f"{case['method']}/{weighting}: first call {_fmt(first[0])} differs from the definition {_fmt(wants[0])}"
+    msg = _changed(snapA, dsA, nA, strict)
+    if msg:
+        return f"{case['method']}: after one call {msg}"
+    rB = _unbalanced(dsB, case, nB)
+    if not _same_labels(rB.pattern_descriptors['cond'], dB['uniq']) or not close(rB.dissimilarities[0], wants[1], TOL):
+        return (f"{case['method']}/{weighting}: a call with other content of the same shape, made after the first call, gives "
+                f"{_fmt(rB.dissimilarities[0])} for {list(rB.pattern_descriptors['cond'])}, the definition {_fmt(wants[1])} for "
+                f"{dB['uniq']}; the earlier call returned {_fmt(first[0])}")
+    r2 = _unbalanced(dsA, case, nA)
+    if not np.array_equal(r2.dissimilarities, first, equal_nan=True) or not _same_labels(r2.pattern_descriptors['cond'], first_labels):
+        return (f"{case['method']}/{weighting}: the same call made twice gives {_fmt(first[0])} and then "
+                f'{_fmt(r2.dissimilarities[0])}')
+    if not np.array_equal(r1.dissimilarities, first, equal_nan=True) or not _same_labels(r1.pattern_descriptors['cond'], first_labels):
+        return (f"{case['method']}: the result held by the caller changed while the library was called again: "
+                f'{_fmt(r1.dissimilarities[0])}, it was {_fmt(first[0])}')
+    # single-pair helper on the first two conditions, twice
+    ra = [i for i in range(dA['m']) if dA['cond'][i] == 0]
+    rb = [i for i in range(dA['m']) if dA['cond'][i] == 1]
+    folds = _effective_folds(case['method'], dA['folds'], dA['m'])
+    code = list(range(dA['m'])) if folds is None else _first_appearance(folds)[1]
+    da, db = Dataset(_array(dA['X'][ra], dtype, order)), Dataset(_array(dA['X'][rb], dtype, order))
+    cva, cvb = np.array([code[i] for i in ra], dtype=np.int64), np.array([code[i] for i in rb], dtype=np.int64)
+    keep = [np.array(v, copy=True) for v in (da.measurements, db.measurements, cva, cvb)]
+    ones = [calc_one_similarity(da, db, cva, cvb, method=case['method'], noise=nA, weighting=weighting,
+                                prior_lambda=dA['pl'], prior_weight=dA['pw']) for _ in range(2)]
+    ones = [(float(v), float(w)) for v, w in ones]
+    if ones[0] != ones[1] and not all(x != x for x in ones[0] + ones[1]):
+        return f"{case['method']}/{weighting}: calc_one_similarity called twice on the same input gives {ones[0]} and {ones[1]}"
+    for v, k in zip((da.measurements, db.measurements, cva, cvb), keep):
+        if not np.array_equal(v, k, equal_nan=True):
+            return f"{case['method']}: calc_one_similarity changed one of its inputs"
+    # the list call after the single calls
+    if dA['labels'] == dB['labels']:
+        with warnings.catch_warnings():
+            warnings.simplefilter('ignore')
+            both = calc_rdm_unbalanced([dsA, dsB], method=case['method'], descriptor='cond',
+                                       noise=None if nA is None else [nA, nB],
+                                       cv_descriptor='fold' if case.get('folds') is not None else None,
+                                       prior_lambda=dA['pl'], prior_weight=dA['pw'], weighting=weighting)
+        if not np.array_equal(both.dissimilarities[0], first[0], equal_nan=True) \
+                or not close(both.dissimilarities[1], wants[1], TOL):
+            return (f"{case['method']}/{weighting}: the list call after the single calls gives {_fmt(both.dissimilarities)}, the "
+                    f'single calls gave {_fmt(first[0])} and {_fmt(rB.dissimilarities[0])}')
+    for nm, snap, ds, nz in (('first', snapA, dsA, nA), ('second', snapB, dsB, nB)):
+        msg = _changed(snap, ds, nz, strict)
+        if msg:
+            return f"{case['method']}: after the sequence of calls, {nm} dataset: {msg}"
+    if not np.array_equal(r1.dissimilarities, first, equal_nan=True):
+        return f"{case['method']}: the result held by the caller changed during the later calls"
+    return None
+
+
+_CHILD = r"""
+import json, sys, warnings
+warnings.simplefilter('ignore')
+import contracts.C15_c  # noqa: registers the oracles
+from vf.rt.harness import ORACLES
+out = []
+for name, case in json.load(sys.stdin):
+    try:
+        r = ORACLES[name](case)
+    except Exception as e:
+        r = 'exception %s: %s' % (type(e).__name__, e)
+    out.append(r)
+print('C15-CHILD-RESULT ' + json.dumps(out))
+"""
+
+
+@oracle('C15/hashseed')
+def orc_hashseed(case):
+    """the oracles of case['batch'] = [[oracle name, case], ...] hold as well in a NEW interpreter started with
+    PYTHONHASHSEED = case['hashseed'] (same library, same sys.path): the result does not depend on the hash seed"""
+    import os
+    env = dict(os.environ)
+    env['PYTHONHASHSEED'] = str(case['hashseed'])
+    env['PYTHONPATH'] = os.pathsep.join(q for q in sys.path if q)
+    env['PYTHONDONTWRITEBYTECODE'] = '1'
+    proc = subprocess.run([sys.executable, '-c', _CHILD], input=json.dumps(case['batch']), capture_output=True, text=True,
+                          env=env, timeout=600)
+    line = [ln for ln in proc.stdout.splitlines() if ln.startswith('C15-CHILD-RESULT ')]
+    if proc.returncode != 0 or not line:
+        return f'interpreter with PYTHONHASHSEED={case["hashseed"]} failed (exit {proc.returncode}): {proc.stderr.strip()[-400:]}'
+    results = json.loads(line[-1][len('C15-CHILD-RESULT '):])
+    for (name, sub), r in zip(case['batch'], results):
+        if r is not None:
+            return f'with PYTHONHASHSEED={case["hashseed"]}: {name} on {json.dumps(sub)[:300]}: {r}'
     return None
 
 
